@@ -10,11 +10,11 @@ use xml_dom::{
 };
 
 pub const START_DOCS: &[&str] = &[
-    "<r><a id=\"1\">x<b/>y</a><c k=\"v\"><!--m--><d/></c><?p q?>t</r>",
+    "<r><a id=\"1\">x<b/>y</a><c k=\"v\"><!--m--><d/></c><?p q?>t<l>] ]> a long run of character data, more than sixty-four characters: 0123456789 0123456789 ]] &gt;<![CDATA[]] ] a long CDATA section, more than sixty-four characters: 0123456789 0123456789 0123456789]]></l></r>",
     "<r id=\"r\"><a id=\"1\" k=\"x\">t</a><b id=\"2\" k=\"y\"><c k=\"z\">&#65;</c></b></r>",
     "<!DOCTYPE r [<!ENTITY e \"ee\"><!ENTITY m \"<i>x</i>\"><!ATTLIST a d CDATA \"dv\">]><r>t1<a n=\"1\">&e;<![CDATA[cd]]></a><b><c><d>deep</d>&m;</c></b></r>",
     "<r xmlns=\"urn:d\" xmlns:p=\"urn:1\"><g><p:a p:k=\"1\" k=\"2\">\u{e9}\u{1F600}</p:a><b>one</b></g>two<s xmlns:p=\"urn:2\" w=\"1\" xmlns=\"\"><p:c/><d>three</d></s></r>",
-    "<?x y?><!DOCTYPE r><r><!--c1--><a>a-b-c</a><b>]]</b><c>&#169;</c><e>t&#233;</e></r><!--end-->",
+    "<?x y?><!DOCTYPE r><r><!--c1--><a>a-b-c</a><b>]]</b><c>&#169;</c><e>t&#233;</e></r><!--a-b-c-d-e-f-g-h-i-j-k-l, more than sixty-four characters of comment - with single hyphens - 0123456789-->",
     "<r><!--a-b-c--><![CDATA[]]x>]]><t>]]x></t><u q=\"x'\" w=\"]]>\">-</u><!---x--></r>",
 ];
 
